@@ -102,6 +102,18 @@ def progD17 : Program :=
 def progD40 : Program :=
   oneFileProg true [.struct .struct (nm "S") [⟨some 1, nm "f", .optional, .ref (nm "S"), some (.map [])⟩]]
 
+/-- D74: two constants defined as each other, each of a struct type with a default that refers to
+the other, reached from an including file *before* their types are linked:
+`include "./inc.thrift"  struct X {1: optional i32 v = inc.a}` with inc.thrift =
+`struct T1 {1: optional i32 f = b}  struct T2 {1: optional i32 g = a}  const T1 a = b  const T2 b = a` -/
+def progD74 : Program := ⟨true, [
+  .ok [⟨false, nm "inc", some 1⟩]
+    [.struct .struct (nm "X") [⟨some 1, nm "v", .optional, .base 0 .i32, some (.uref (nm "inc.a"))⟩]],
+  .ok [] [.struct .struct (nm "T1") [⟨some 1, nm "f", .optional, .base 0 .i32, some (.uref (nm "b"))⟩],
+          .struct .struct (nm "T2") [⟨some 1, nm "g", .optional, .base 0 .i32, some (.uref (nm "a"))⟩],
+          .const (nm "a") (.ref (nm "T1")) (.uref (nm "b")),
+          .const (nm "b") (.ref (nm "T2")) (.uref (nm "a"))]]⟩
+
 /-- D50: `struct S {1: optional T t; 2: optional E e = 1}  struct T {1: optional S s = {}}  enum E {X = 1}` -/
 def progD50 : Program :=
   oneFileProg true [
